@@ -724,11 +724,34 @@ func checkForwarding(r *Run, prog *Program, a *Anchors, pfx string) {
 	r.Floor(pfx+".forwarding", 6)
 	n := 0
 	for _, fn := range prog.ModuleFuncs() {
-		if fnPkg(fn) != prog.Bexpr.Types || len(fn.Params) == 0 || !fn.Signature.Variadic() || !isOptSlice(fn.Params[len(fn.Params)-1].Type()) {
+		if fnPkg(fn) != prog.Bexpr.Types || len(fn.Params) == 0 {
 			continue
 		}
-		own := fn.Params[len(fn.Params)-1]
-		pOwn := paramSym(own)
+		var pOwn *Sym
+		if fn.Signature.Variadic() && isOptSlice(fn.Params[len(fn.Params)-1].Type()) {
+			pOwn = paramSym(fn.Params[len(fn.Params)-1])
+		} else if rv := fn.Signature.Recv(); rv != nil && a.EvalSet[fn] {
+			// a method of a struct that carries the evaluation's options in a field: that field is the caller's list
+			t := rv.Type()
+			isPtr := false
+			if pt, ok := t.Underlying().(*types.Pointer); ok {
+				t, isPtr = pt.Elem(), true
+			}
+			if st, ok := t.Underlying().(*types.Struct); ok {
+				for i := 0; i < st.NumFields(); i++ {
+					if isOptSlice(st.Field(i).Type()) {
+						if isPtr {
+							pOwn = loadField(paramSym(fn.Params[0]), st.Field(i).Name())
+						} else {
+							pOwn = &Sym{K: sField, A: paramSym(fn.Params[0]), Str: st.Field(i).Name()}
+						}
+					}
+				}
+			}
+		}
+		if pOwn == nil {
+			continue
+		}
 		// decided on the paths of fn (unexported helpers interpreted in place): whatever list reaches a sub-evaluation is the
 		// caller's own list, or a fresh copy of it extended by appends
 		ps := NewPathSim(prog)
